@@ -91,6 +91,33 @@ def iter_script(d, prop, followups=True):
     return s
 
 
+def iter_clone_from_scripts(lens, prop, faults=False):
+    """Clone::clone_from between two by-value iterators of the same array type, from every pair of (front, back)
+    positions: the destination afterwards yields clones of exactly the source's remaining elements, the source is
+    undisturbed, what the destination held is dropped once.  With `faults`: the clone of every remaining source
+    element panics."""
+    out = []
+    for n in lens:
+        for f1 in range(0, n + 1):
+            for b1 in range(f1, n + 1):
+                for f2 in range(0, n + 1):
+                    for b2 in range(f2, n + 1):
+                        steps = [{"op": "mk", "n": n}, {"op": "into_iter", "recv": [1]}]
+                        steps += [{"op": "next", "recv": [2]} for _ in range(f1)] + [{"op": "next_back", "recv": [2]} for _ in range(n - b1)]
+                        steps += [{"op": "mk", "n": n}, {"op": "into_iter", "recv": [3]}]
+                        steps += [{"op": "next", "recv": [4]} for _ in range(f2)] + [{"op": "next_back", "recv": [4]} for _ in range(n - b2)]
+                        tail = [{"op": "len", "recv": [2]}, {"op": "len", "recv": [4]}] + [{"op": "next", "recv": [2]} for _ in range(b2 - f2 + 1)] + [{"op": "next_back", "recv": [4]}, {"op": "next", "recv": [4]}]
+                        d = {"op": "iter_clone_from", "n": n, "dst": [f1, b1], "src": [f2, b2]}
+                        if not faults:
+                            out.append({"case": "iter_clone_from", "prop": prop, "ety": "tk", "steps": steps + [{"op": "iter_clone_from", "recv": [2, 4]}] + tail, "d": d})
+                        else:
+                            for k in range(b2 - f2):
+                                # ids: the first array holds 1..n, the second n+1..2n
+                                out.append({"case": "iter_clone_from", "prop": prop, "ety": "tk", "fuse_clone": [n + f2 + 1 + k],
+                                            "steps": steps + [{"op": "iter_clone_from", "recv": [2, 4]}] + tail, "d": dict(d, cpan=n + f2 + 1 + k)})
+    return out
+
+
 def random_iter_scripts(rng, count, lens, steps_n):
     out = []
     for _ in range(count):
@@ -180,6 +207,9 @@ def c06(tier, seed):
     scns = [iter_script(d, "C06") for d in descs + extra]
     # Clone of the iterator for an element type without drop glue but with an observable Clone
     scns += [iter_script(dict(d, ety=e), "C06") for d in descs if d["op"] == "iter_clone" for e in ("plain", "plz")]
+    # Clone::clone_from between two iterators, every pair of positions
+    cf = iter_clone_from_scripts([0, 1, 2, 3] if tier == "quick" else [0, 1, 2, 3, 4, 5], "C06")
+    scns += cf + [dict(s, ety="plain") for s in cf if s["d"]["n"] <= 2]
     c.cov["exhaustive"] = True
     c.cov["bounds"] = {"N": "0..%d" % (5 if tier == "quick" else 8), "args": "0..len+2", "positions": "every reachable (front, back)"}
     c.conform(binary, scns, "transitions")
@@ -318,6 +348,13 @@ def clone_default_scripts(lens, prop, faults):
                 if cp:
                     s["fuse_clone"] = [cp]
                 out.append(s)
+            # Clone::clone_from: the destination (ids 1..n) is overwritten with clones of the source (ids n+1..2n)
+            for cp in pans:
+                s = {"case": "clone_from", "prop": prop, "ety": "tk", "steps": [_mk(kind, n), _mk(kind, n), {"op": "clone_from", "recv": [1, 2]}],
+                     "d": {"op": "clone_from", "kind": kind, "n": n, "cpan": n + cp if cp else 0}}
+                if cp:
+                    s["fuse_clone"] = [n + cp]
+                out.append(s)
             if not faults:
                 out.append({"case": "default", "prop": prop, "ety": "tk", "steps": [{"op": "default", "n": n, "okind": kind}],
                             "d": {"op": "default", "kind": kind, "n": n}})
@@ -423,6 +460,7 @@ def c04(tier, seed):
     small = [1, 2, 3, 4] if tier == "quick" else [1, 2, 3, 4, 5, 6]
     scns += clone_default_scripts(small + [8], "C04", True)
     scns += iter_cb_fault_scripts(small, "C04")
+    scns += iter_clone_from_scripts([1, 2, 3] if tier == "quick" else [1, 2, 3, 4], "C04", faults=True)
     ri = c.mc("MC_Iter", "MC_Iter_fq" if tier == "quick" else "MC_Iter_ft")
     scns += [iter_script(d, "C04") for d in dedupe([d for d in ri["scenarios"] if d.get("cpan", 0) > 0 and d["pan"] == 0])]
     scns += collect_scripts([0, 1, 2, 3] if tier == "quick" else [0, 1, 2, 3, 4, 8], "C04", True, extra_hints=False)
@@ -487,8 +525,8 @@ def with_etys(scns, etys):
         for e in etys:
             if e != "tk" and (s.get("fuse_drop") or s.get("fuse_clone")):
                 continue
-            if e in ("zst", "plz") and any(st.get("pass_mod", -1) >= 0 for st in s["steps"]):
-                continue
+            if e in ("zst", "plz") and any(st.get("pass_mod", -1) >= 0 or st.get("op") in ("clone_from", "iter_clone_from") for st in s["steps"]):
+                continue     # (identity inference does not cover a destination's old elements dropped amid clones)
             t = dict(s)
             t["ety"] = e
             t["d"] = dict(s.get("d", {}), ety=e)
